@@ -567,32 +567,37 @@ class AttributeCollection(MutableMapping[int, Attribute]):
             self.add(cached, key)
             return
 
-        len2 = len(as2path.as_seq)
-        len4 = len(as4path.as_seq)
+        # RFC 6793 section 4.2.3: AS_SET counts for one, confederation segments for none,
+        # and confederation segments of AS4_PATH are discarded
+        def path_length(path: Any) -> int:
+            return sum(len(seg) if seg.ID == SEQUENCE.ID else 1 for seg in path if seg.ID in (SEQUENCE.ID, SET.ID))
 
-        # RFC 4893 section 4.2.3
-        if len2 < len4:
-            as_seq = as2path.as_seq
+        as4segments = [seg for seg in as4path.aspath if seg.ID in (SEQUENCE.ID, SET.ID)]
+        missing = path_length(as2path.aspath) - path_length(as4segments)
+
+        segments: list[Any] = []
+        if missing < 0:
+            # AS4_PATH is longer than AS_PATH: it is ignored
+            segments = list(as2path.aspath)
         else:
-            as_seq = as2path.as_seq[:-len4]
-            as_seq.extend(as4path.as_seq)
-
-        len2 = len(as2path.as_set)
-        len4 = len(as4path.as_set)
-
-        if len2 < len4:
-            as_set = as4path.as_set
-        else:
-            as_set = as2path.as_set[:-len4]
-            as_set.extend(as4path.as_set)
-
-        # Build segments from merged ASN lists
-        segments: list[SET | SEQUENCE] = []
-        if as_seq:
-            segments.append(SEQUENCE(as_seq))
-        if as_set:
-            segments.append(SET(as_set))
-        aspath = AS2Path.make_aspath(segments)
+            # the leading part of AS_PATH, then AS4_PATH
+            for seg in as2path.aspath:
+                if seg.ID not in (SEQUENCE.ID, SET.ID):
+                    segments.append(seg)
+                    continue
+                if missing <= 0:
+                    break
+                if seg.ID == SET.ID:
+                    segments.append(seg)
+                    missing -= 1
+                    continue
+                taken = SEQUENCE(list(seg)[:missing])
+                segments.append(taken)
+                missing -= len(taken)
+                if len(taken) < len(seg):
+                    break
+            segments.extend(as4segments)
+        aspath = AS2Path.make_aspath(segments, asn4=True)
         self.add(aspath, key)
 
     def __hash__(self) -> int:
